@@ -33,7 +33,8 @@ class VLoop(asyncio.SelectorEventLoop):
         self.steps = 0
         self.time_jumps = 0
         self.thread_jobs = 0
-        self.livelock = livelock  # iterations allowed at one virtual instant (zero-time livelock detector)
+        self.livelock = livelock  # iterations allowed at one virtual instant without observable progress (the engine resets
+        # _same_t on every trace record): the library's own bounded spin is 1000 zero-delay polls per in-handler await
         self._same_t = 0
         self._last_t = 0.0
 
